@@ -209,54 +209,54 @@ theorem C13_client_predrain (logs : List Nat) :
     simp [sendRecv, this]
   · simp [sendRecv, preDrain_logs, preDrain]
 
-/-! ## what is really written, and the remaining defects (witnesses; KNOWN-FINDINGs) -/
+/-! ## what is really written; the outgoing thread -/
 
-/-- the messages the outgoing thread really writes are the automaton's replies, except those put
-for a connection the same handler closes; for every request that does not close the requester
-(everything but `disconnect` and a `request` for a non-open id) they are exactly the replies -/
+/-- (full strength since fix 9f2bad4) every reply the automaton prescribes is really written to
+its client: what a handler queues is never lost to a `close` of the same handler, because the
+only handler that answers and closes (`request` for a non-open id) writes its answer itself -/
 theorem C13_written_replies {s s' : Srv} {a : Abs} {e : Ev} (h : Inv s) (r : R s a)
     (hw : wf s e = true) (hs : step s e = .ok s') :
-    writtenReplies s'.out = keepWritten (spec a (absEv s e)).2 ∧
-    (closesConn a (absEv s e) = false → writtenReplies s'.out = (spec a (absEv s e)).2) := by
-  have := (sim_step h r e hw hs).2
-  refine ⟨by simp [writtenReplies, this], fun hc => ?_⟩
-  simp only [writtenReplies, this]
-  exact keepWritten_noClose (spec_noClose a _ hc)
+    writtenReplies s'.out = (spec a (absEv s e)).2 :=
+  written_step h r hw hs
 
-/-
-Full strength (every reply the automaton requires is written) is FALSE for one request kind:
-
-theorem C13_every_reply_written … : writtenReplies s'.out = (spec a (absEv s e)).2
--/
-
-/-- witness (finding `bad-request-reply-never-written`): the answer ERROR 'Unknown task.' to a
-`request` for a non-open id is put and then the connection is closed by the same handler, so it
-is never written - the client only sees its connection die -/
-theorem C13_bad_request_reply_dropped_witness (a : Abs) (c : Conn) (t : Tid)
-    (h : (a.task t).openFor c = false) :
+/-- regression instance: the answer to a request for an unknown id reaches the client -/
+theorem C13_bad_request_reply_written (a : Abs) (c : Conn) (t : Tid) (downs : List Out)
+    (h : (a.task t).openFor c = false) (hd : ∀ o ∈ downs, ∃ m, o = Out.downCancel m) :
     (spec a (.request c t)).2 = [.errorTo c 0, .close c] ∧
-    keepWritten (spec a (.request c t)).2 = [.close c] := by
-  rw [spec_request_notOpen h]
-  simp [keepWritten, Reply.isClose, Reply.conn]
+    writtenReplies (Out.errorNow c 0 :: Out.close c :: downs) = [.errorTo c 0, .close c] := by
+  refine ⟨by rw [spec_request_notOpen h], ?_⟩
+  have := written_disc (pre := [Out.errorNow c 0]) (c := c) hd (Or.inr rfl)
+  simpa [clientReplies, Out.reply?] using this
 
-/-- witness (finding `client-error-text-only-in-cause`): for an ERROR reply the caller of
-`status/result/cancel` gets the wrapped exception - its own text is the fixed string
-'Server connection unexpectedly closed.', the original text is only the `__cause__` -/
-theorem C13_client_error_text_witness (msg : Nat) (logs : List Nat) (rest : List CMsg) :
+/-- (full strength since fixes dfecb96, 9e98cc2) one iteration of the outgoing thread, whatever
+happens to the `send` - skipped, sent, or failed with EOFError / any OSError (ConnectionReset,
+BrokenPipe, …): the thread survives and the server state is untouched; in particular the
+vanished client is still registered, so the main loop's EOF for it is an ordinary well-formed
+`disconnect` (no second disconnect can occur) -/
+theorem C13_outgoing_thread (s : Srv) (c : Conn) (r : SendResult)
+    (hr : r ≠ .failed .nonOSError) :
+    (outgoingStep s c r).1 = true ∧ (outgoingStep s c r).2 = s ∧
+    ∀ e, wf (outgoingStep s c r).2 e = wf s e := by
+  have h2 : (outgoingStep s c r).2 = s := by cases r <;> rfl
+  refine ⟨?_, h2, fun e => by rw [h2]⟩
+  cases r with
+  | skippedClosed => rfl
+  | sent => rfl
+  | failed e => cases e <;> first | rfl | exact absurd rfl hr
+
+/-- observation (not a violation): for an ERROR reply the caller of `status/result/cancel` gets
+the wrapped exception - its own text is 'Server connection unexpectedly closed.', the original
+text is its `__cause__`; the chain carries the message -/
+theorem C13_client_error_in_cause (msg : Nat) (logs : List Nat) (rest : List CMsg) :
     sendRecv [] (logs.map CMsg.log ++ CMsg.error msg :: rest) = .wrapped (some msg) := by
   simp [sendRecv, preDrain, recvHandle_logs, recvHandle]
 
-/-- witness (finding `outgoing-thread-dies:BrokenPipeError`): the exception a send to a vanished
-peer normally raises is not among those `send_outgoing` survives -/
-theorem C13_outgoing_brokenpipe_witness :
-    outgoingSurvives .brokenPipe = false ∧ outgoingSurvives .connectionReset = true := ⟨rfl, rfl⟩
-
-/-- witness (finding `double-disconnect`): `handle_disconnect` for a connection that was already
-removed (the outgoing thread does that on ConnectionResetError, the main thread on the EOF of the
-same connection) is a failing lookup: the run loop shuts the server down -/
-theorem C13_double_disconnect_witness :
+/-- a `disconnect` of an unregistered connection would be a failing lookup; `wf` excludes it
+and, since 9e98cc2, so does the code (only the main loop disconnects, once) -/
+theorem C13_second_disconnect_not_wf :
     histFails [.connect 0, .disconnect 0] = false ∧
-    histFails [.connect 0, .disconnect 0, .disconnect 0] = true := by
+    histFails [.connect 0, .disconnect 0, .disconnect 0] = true ∧
+    wfHist init [.connect 0, .disconnect 0, .disconnect 0] = false := by
   decide
 
 /-! ## non-vacuity -/
@@ -299,9 +299,12 @@ example : Reach demo ∧ get? demo.boxes 0 = some ⟨none, false⟩ ∧
     (false = false ∨ ([] : List Addr).any (spawn (spawn (rootTask 0) 3 0 0) 4 1 2).isDescendantOf = false) :=
   ⟨demo_reach, rfl, .spawn _ _ _ (.spawn _ _ _ .root), Or.inl rfl⟩
 
--- C13_written_replies: same hypotheses as C13_refines_task_automaton; a non-closing request
-example : closesConn absInit (.status 0 7) = false := rfl
--- C13_bad_request_reply_dropped_witness: an unknown id is not open
+-- C13_written_replies: same hypotheses as C13_refines_task_automaton (see above), incl. the
+-- closing request kinds
+example : wf demo (.request 0 7) = true ∧ closesConn absInit (.request 0 7) = true := ⟨rfl, rfl⟩
+-- C13_bad_request_reply_written: an unknown id is not open
 example : (absInit.task 5).openFor 0 = false := rfl
+-- C13_outgoing_thread: a broken pipe is such a result
+example : SendResult.failed .brokenPipe ≠ .failed .nonOSError := by decide
 
 end BqVerif.C13
